@@ -58,6 +58,24 @@ def F(key, t, o=None):
     return {"key": key, "t": t, "o": o}
 
 
+def A(t, optional=False):
+    """anonymous (embedded) struct or pointer-to-struct field"""
+    return {"key": "", "t": t, "o": O(opt=True) if optional else None, "anon": True}
+
+
+def flat_fields(fields, group=None):
+    """the fields whose keys are looked up in one object: embedded structs are flattened.
+    Yields (field, group) — group identifies the enclosing optional embedded struct, if any."""
+    for f in fields:
+        if f.get("anon"):
+            g = group
+            if g is None and f["o"] and f["o"]["opt"]:
+                g = id(f)
+            yield from flat_fields(deref(f["t"])["f"], g)
+        else:
+            yield f, group
+
+
 def R(s):
     l, r = s[1:-1].split(":")
     return {"li": s[0] == "[", "l": l or None, "r": r or None, "ri": s[-1] == "]"}
@@ -158,7 +176,11 @@ def ctype(t):
 def cfields(fs):
     s = "FNil"
     for f in reversed(fs):
-        s = "(FCons %s %s %s %s)" % (cstr(f["key"]), copts(f["o"]), ctype(f["t"]), s)
+        if f.get("anon"):
+            s = "(FEmbed %s %s %s %s)" % (cbool(bool(f["o"] and f["o"]["opt"])), cbool(f["t"]["k"] == "ptr"),
+                                          cfields(deref(f["t"])["f"]), s)
+        else:
+            s = "(FCons %s %s %s %s)" % (cstr(f["key"]), copts(f["o"]), ctype(f["t"]), s)
     return s
 
 
@@ -371,9 +393,26 @@ class Gen:
             e = deref(e)
         return Mp(e)
 
-    def gen_struct(self, depth, mode, nfields):
+    def gen_embedded(self, depth, mode, level=0):
         rng = self.rng
-        keys = KEYS[:nfields]
+        pool = ["p", "q", "r"] if level == 0 else ["u", "v"]
+        inner = self.gen_struct(depth, mode, rng.randint(1, len(pool)), keys=pool,
+                                allow_embed=(level == 0))
+        optional = rng.random() < 0.6
+        if optional:
+            inner["f"] = [f for f in inner["f"] if not f.get("anon")] or inner["f"]
+            if any(f.get("anon") for f in inner["f"]):
+                optional = False
+        return A(Ptr(inner) if rng.random() < 0.4 else inner, optional)
+
+    def gen_struct(self, depth, mode, nfields, keys=None, allow_embed=None):
+        rng = self.rng
+        embed = None
+        if allow_embed is None:
+            allow_embed = keys is None
+        if allow_embed and rng.random() < 0.22:
+            embed = self.gen_embedded(max(0, depth - 1), mode, 0 if keys is None else 1)
+        keys = (keys or KEYS)[:nfields]
         fs = []
         for i, key in enumerate(keys):
             if mode in STRING_MODES:
@@ -403,6 +442,8 @@ class Gen:
                 elif r < 0.60:
                     o = O(options=["x", "1"])
             fs.append(F(key, t, o))
+        if embed is not None:
+            fs.insert(rng.randrange(len(fs) + 1), embed)
         return St(*fs)
 
     # ---- documents -----------------------------------------------------------
@@ -609,14 +650,26 @@ class Gen:
         constraint met — except at position bad_at (a single violation)"""
         rng = self.rng
         counter = counter if counter is not None else [0]
+        flat = list(flat_fields(fields))
+        fields = [f for f, _ in flat]
         keys = [f["key"] for f in fields]
         present = {}
-        for f in fields:
+        group_mode = {}
+        for f, grp in flat:
             o = f["o"]
             if o is None or not o["opt"]:
                 present[f["key"]] = True if (o is None or o["def"] is None) else rng.random() < 0.5
             else:
                 present[f["key"]] = rng.random() < 0.5
+            if grp is not None:
+                # an optional embedded struct: all members, none, or a proper subset
+                m = group_mode.setdefault(grp, rng.choice(["valid", "valid", "none", "all", "subset"]))
+                if m == "none":
+                    present[f["key"]] = False
+                elif m == "all":
+                    present[f["key"]] = True
+                elif m == "subset":
+                    present[f["key"]] = rng.random() < 0.5
         for _ in range(3):   # make dependencies consistent
             for f in fields:
                 o = f["o"]
@@ -650,7 +703,7 @@ class Gen:
 
     def count_fields(self, fields):
         n = 0
-        for f in fields:
+        for f, _ in flat_fields(fields):
             n += 1
             t0 = deref(f["t"])
             if t0["k"] == "struct":
@@ -822,6 +875,45 @@ def systematic(rng):
                                  "doc": dobj([("a", ds(lit))]), "intent": "alias"}))
             cases.append(finish({"mode": "key", "type": St(F("a", P(kind), copy.deepcopy(rg))),
                                  "doc": dobj([("a", {"g": [kind, lit]})]), "intent": "alias"}))
+    # anonymous (embedded) structs: value / pointer, plain / ",optional", members with every
+    # option kind, documents supplying all / none / every subset of the members
+    import itertools
+    member_sets = [
+        [F("a", P("int"), O(range=R("[1:5]"))), F("b", P("int"), O(options=["5", "6"], **{"def": "5"})),
+         F("c", P("int8"), O(opt=True, **{"def": "7"})), F("d", P("string"), O(opt=True))],
+        [F("a", P("int")), F("b", P("float64"), O(**{"def": "2.5"}))],
+        [F("b", P("string"), O(**{"def": "dd"}))],
+        [F("c", P("uint8"), O(opt=True, **{"def": "9"})), F("d", P("bool"), O(opt=True))],
+        [F("a", P("int"), O(opt=True, dep="d")), F("d", P("int"), O(opt=True)), F("b", Ptr(P("int")), O(**{"def": "4"}))],
+        [F("a", P("int"), O(opt=True, dep="z", neg=True)), F("b", P("int"), O(**{"def": "4"}))],
+        [F("a", Sl(P("int"))), F("m", Mp(P("int"))), F("s", St(F("x", P("int"), O(**{"def": "1"})))), F("b", P("int"), O(**{"def": "3"}))],
+        [F("a", P("int")), F("b", P("int"), O(**{"def": "zz"}))],
+    ]
+    for members in member_sets:
+        keys = [f["key"] for f in members]
+        for optional in (False, True):
+            for ptr in (False, True):
+                for emode in ("json", "form", "key", "httpx-form", "header", "httpx-header"):
+                    if emode in STRING_MODES and any(deref(f["t"])["k"] not in KINDS for f in members):
+                        continue
+                    subsets = [ks for n in range(len(keys) + 1) for ks in itertools.combinations(keys, n)]
+                    if emode != "json":
+                        subsets = [ks for j, ks in enumerate(subsets) if j % 3 == (len(keys) % 3)]
+                    for ks in subsets:
+                        for bad in (False, True):
+                            if bad and ("a" not in ks or emode != "json"):
+                                continue
+                            inner = St(*copy.deepcopy(members))
+                            emb = A(Ptr(inner) if ptr else inner, optional)
+                            outer = [F("z", P("int"), O(opt=True)), emb]
+                            pairs = []
+                            for f in inner["f"]:
+                                if f["key"] in ks:
+                                    v = g.field_value(f, emode, "valid")
+                                    if bad and f["key"] == "a":
+                                        v = dn("100") if deref(f["t"])["k"] in KINDS else NULL
+                                    pairs.append((f["key"], v))
+                            cases.append(finish({"mode": emode, "type": St(*outer), "doc": dobj(pairs), "intent": "embedded"}))
     # an absent struct field: reported iff one of its own fields has to be supplied
     i = P("int")
     inner = [
@@ -921,6 +1013,17 @@ class C08(Property):
             {"mode": "httpx-json", "type": St(F("a", i, O(opt=True)), F("b", i, O(**{"def": "3"}))), "raw": "", "doc": None},
             {"mode": "httpx-form", "type": St(F("a", i, O(opt=True)), F("c", P("string"), O(opt=True))),
              "doc": dobj([("a", ds("")), ("c", ds("v"))])},
+            # optional embedded struct: defaulted member omitted / optional+default member omitted
+            {"mode": "json", "type": St(A(St(F("a", i), F("b", i, O(**{"def": "5"})), F("c", i, O(opt=True, **{"def": "7"}))), True)),
+             "doc": dobj([("a", dn("1"))])},
+            {"mode": "json", "type": St(A(Ptr(St(F("a", i), F("b", i, O(**{"def": "5"})), F("c", i, O(opt=True, **{"def": "7"})))), True)),
+             "doc": dobj([("a", dn("1")), ("b", dn("2"))])},
+            {"mode": "json", "type": St(A(Ptr(St(F("a", i), F("b", i, O(**{"def": "5"})))), True)), "doc": dobj([])},
+            {"mode": "json", "type": St(A(St(F("a", i), F("b", i, O(**{"def": "5"}))), True)), "doc": dobj([("b", dn("6"))])},
+            # header: member without options inside an optional embedded struct
+            {"mode": "header", "type": St(A(St(F("p", P("uint8"))), True)), "doc": dobj([("p", ds("2"))])},
+            {"mode": "httpx-header", "type": St(A(Ptr(St(F("p", P("uint8")), F("q", i, O(opt=True)))), True)),
+             "doc": dobj([("p", ds("2")), ("q", ds("3"))])},
         ]
         return [finish(c) for c in cs]
 
